@@ -60,11 +60,12 @@ def run(ctx: Ctx):
             if any(s != r["shas"][0] for s in r["shas"]):
                 ctx.violation("generating the same definition again in the same interpreter (also after another model) gives different C++ text",
                               {"definition": d, "seed": seed, "decl": decl, "shas": r["shas"]}, key="same-process-differs")
-            key = (r["header_sha"], r["source_sha"], tuple(r["py_arglist"]), str(r["py_readings"]))
+            key = (r["header_sha"], r["source_sha"], tuple(r["py_arglist"]), str(r["py_readings"]), r.get("py_values"))
             if ref is None:
                 ref = (key, seed, decl)
             elif key != ref[0]:
-                what = "C++ header/source" if key[:2] != ref[0][:2] else "Python variable layout"
+                what = "C++ header/source" if key[:2] != ref[0][:2] else ("Python variable layout" if key[2:4] != ref[0][2:4] else
+                                                                          "values computed by the Python filter (Jacobians / predictions / noise at one fixed point)")
                 ctx.violation(f"{what} differs between two generations of the same definition (hash seed {ref[1]} / {seed}, declaration {ref[2]} / {decl})",
                               {"definition": d, "a": {"seed": ref[1], "decl": ref[2], "arglist": ref[0][2]}, "b": {"seed": seed, "decl": decl, "arglist": key[2]}},
                               key=f"differs:{what}")
